@@ -31,11 +31,23 @@ Definition parse_comment : P node :=
   t <- exp_token TComment ;;
   ret (Node KAstComment S_comment (traw t) (trange t) [(K_str, AS (tval t))] []).
 
-(* parse_annotations *)
+(* parse_annotations: `[` ... `]`; without the closing bracket the error is located just after the `[`
+   (before /repo's repair an unclosed bracket swallowed the rest of the file and succeeded).
+   `opt` continues at its original input when its argument fails, which is where the code puts the error. *)
+Definition annotation_body : P unit :=
+  r <- take_until [TCSqrBracket] ;;
+  match snd r with
+  | Some _ => ret tt
+  | None => fail S_Annotation_is_not_closed
+  end.
+
 Definition parse_annotations : P node :=
   _ <- exp_token TOSqrBracket ;;
-  _ <- take_until [TCSqrBracket] ;;
-  ret mk_empty_default.
+  r <- opt annotation_body ;;
+  match r with
+  | Some _ => ret mk_empty_default
+  | None => fail S_Annotation_is_not_closed
+  end.
 
 (* parse_literal_basic *)
 Definition parse_literal_basic : P node :=
